@@ -254,15 +254,31 @@ func (ex *Exec) binop(st *State, op token.Token, x, y *Val, xt, yt types.Type, i
 	case token.SUB:
 		return scalar(wrapInt(Sub(a, b), w, signed, false))
 	case token.MUL:
-		return scalar(wrapInt(Mul(a, b), w, signed, true))
+		prod := ex.nlMul(a, b)
+		if lo, hi, ok := interval(prod); ok {
+			tlo, thi := intRange(w, signed)
+			if lo.Cmp(tlo) >= 0 && hi.Cmp(thi) <= 0 {
+				return scalar(prod)
+			}
+		}
+		if a.IsLit() || b.IsLit() {
+			return scalar(wrapInt(prod, w, signed, true))
+		}
+		// product of two symbolic operands: overflow is never intended in this code base;
+		// it is an obligation, and the result is then the mathematical product
+		tlo, thi := intRange(w, signed)
+		inRange := And(Le(IntLitBig(tlo), prod), Le(prod, IntLitBig(thi)))
+		ex.check(st, "overflow", site("overflow:mul"), inRange, "integer overflow in multiplication", pos)
+		st.assume(inRange)
+		return scalar(prod)
 	case token.QUO, token.REM:
 		ex.check(st, "div", site("div"), Neq(b, IntLit(0)), "division by zero", pos)
 		st.assume(Neq(b, IntLit(0)))
 		if op == token.QUO {
 			// MinInt / -1 wraps
-			return scalar(wrapInt(goDivInt(a, b), w, signed, false))
+			return scalar(wrapInt(ex.nlDiv(a, b), w, signed, false))
 		}
-		return scalar(goRemInt(a, b))
+		return scalar(ex.nlMod(a, b))
 	case token.LSS:
 		return scalar(Lt(a, b))
 	case token.LEQ:
@@ -544,4 +560,81 @@ func interval(t *Term) (lo, hi *big.Int, ok bool) {
 		}
 	}
 	return nil, nil, false
+}
+
+// ---- non-linear integer arithmetic: uninterpreted with lemma axioms ----
+// Products, quotients and remainders of two symbolic operands are kept as
+// applications of nmul / gdiv / gmod (Go truncated division).  The axioms
+// below are true facts of integer arithmetic; they are instantiated by
+// triggers, which keeps every obligation within linear arithmetic.
+
+func (ex *Exec) nlFuncs() {
+	if _, ok := ex.env.d.Funcs["nmul"]; ok {
+		return
+	}
+	d := ex.env.d
+	d.Func("nmul", SInt, SInt, SInt)
+	d.Func("gdiv", SInt, SInt, SInt)
+	d.Func("gmod", SInt, SInt, SInt)
+	ex.trusted["non-linear arithmetic is axiomatised (nmul/gdiv/gmod: commutativity, sign, strict monotonicity, associativity, division identity)"] = true
+	a, a2, b, c := Sym("a!nl", SInt), Sym("a2!nl", SInt), Sym("b!nl", SInt), Sym("c!nl", SInt)
+	mul := func(x, y *Term) *Term { return App("nmul", SInt, x, y) }
+	z := IntLit(0)
+	// commutativity
+	ex.addNLAxiom(Forall([]*Term{a, b}, Eq(mul(a, b), mul(b, a)), []*Term{mul(a, b)}))
+	// sign and zero
+	ex.addNLAxiom(Forall([]*Term{a, b}, And(
+		Implies(And(Ge(a, z), Ge(b, z)), Ge(mul(a, b), z)),
+		Implies(And(Gt(a, z), Gt(b, z)), And(Ge(mul(a, b), a), Ge(mul(a, b), b))),
+		Implies(Or(Eq(a, z), Eq(b, z)), Eq(mul(a, b), z)),
+		Implies(Eq(b, IntLit(1)), Eq(mul(a, b), a))), []*Term{mul(a, b)}))
+	// strict monotonicity with gap: a < a2, b >= 0  ==>  a*b + b <= a2*b
+	ex.addNLAxiom(Forall([]*Term{a, a2, b}, And(
+		Implies(And(Lt(a, a2), Ge(b, z)), Le(Add(mul(a, b), b), mul(a2, b))),
+		Implies(Eq(a2, Add(a, IntLit(1))), Eq(mul(a2, b), Add(mul(a, b), b)))), []*Term{mul(a, b), mul(a2, b)}))
+	// associativity, only between products that both already occur
+	ex.addNLAxiom(Forall([]*Term{a, b, c}, Eq(mul(mul(a, b), c), mul(a, mul(b, c))), []*Term{mul(mul(a, b), c), mul(a, mul(b, c))}))
+	// truncated division
+	dv := App("gdiv", SInt, a, b)
+	md := App("gmod", SInt, a, b)
+	// uniqueness of quotient and remainder
+	q := Sym("q!nl", SInt)
+	ex.addNLAxiom(Forall([]*Term{a, b, q}, Implies(And(Gt(b, z), Le(mul(q, b), a), Lt(a, Add(mul(q, b), b)), Ge(a, z)), And(Eq(dv, q), Eq(md, Sub(a, mul(q, b))))), []*Term{dv, mul(q, b)}, []*Term{md, mul(q, b)}))
+	ex.addNLAxiom(Forall([]*Term{a, b}, Implies(Gt(b, z), And(
+		Eq(a, Add(mul(dv, b), md)),
+		Implies(Ge(a, z), And(Ge(dv, z), Ge(md, z), Lt(md, b), Le(dv, a))),
+		Implies(Lt(a, z), And(Le(dv, z), Le(md, z), Gt(md, Neg(b)))))), []*Term{dv}, []*Term{md}))
+}
+
+func (ex *Exec) nlMul(a, b *Term) *Term {
+	if a.IsLit() || b.IsLit() {
+		return Mul(a, b)
+	}
+	ex.nlFuncs()
+	return App("nmul", SInt, a, b)
+}
+
+func (ex *Exec) nlDiv(a, b *Term) *Term {
+	if b.IsLit() {
+		return goDivInt(a, b)
+	}
+	ex.nlFuncs()
+	return App("gdiv", SInt, a, b)
+}
+
+func (ex *Exec) nlMod(a, b *Term) *Term {
+	if b.IsLit() {
+		return goRemInt(a, b)
+	}
+	ex.nlFuncs()
+	return App("gmod", SInt, a, b)
+}
+
+func (ex *Exec) addNLAxiom(t *Term) {
+	k := t.String()
+	if ex.axiomSet[k] {
+		return
+	}
+	ex.axiomSet[k] = true
+	ex.nlAxioms = append(ex.nlAxioms, t)
 }
